@@ -621,6 +621,12 @@ func (t *RaftTransaction) ListPage(ctx context.Context, prefix string, after str
 		presentKeys = append(presentKeys, nextPresentEntry)
 	}
 	verifyLimit := len(presentKeys)
+	if nextPresentEntry == "" {
+		// The iteration ran to the end of the prefix, so this is a complete
+		// listing: verify it without a limit, otherwise an entry created
+		// after the last one seen here goes unnoticed at commit time.
+		verifyLimit = math.MaxInt32
+	}
 	listParams, contentsHash, err := createListVerificationEntry(prefix, after, verifyLimit, presentKeys)
 	if err != nil {
 		return nil, err
